@@ -124,6 +124,9 @@ class Interp:
             elif isinstance(st, (ast.Assign, ast.AnnAssign)) and _is_empty_dict(st.value) and isinstance(st.targets[0] if isinstance(st, ast.Assign) else st.target, ast.Name):
                 # a module-level memo dictionary: analysed cold (empty); staleness of its entries is the cache-key rule's business
                 g[(st.targets[0] if isinstance(st, ast.Assign) else st.target).id] = DictVal()
+            elif isinstance(st, ast.Assign) and len(st.targets) == 1 and isinstance(st.targets[0], ast.Name) and _memo_wrapped(st.value) is not None and _memo_wrapped(st.value) in g:
+                # name = lru_cache(...)(function): the memoising wrapper computes what the function computes (its key is (args, kwargs): complete)
+                g[st.targets[0].id] = g[_memo_wrapped(st.value)]
             elif isinstance(st, ast.Assign) and len(st.targets) == 1 and isinstance(st.targets[0], ast.Name):
                 try:
                     g[st.targets[0].id] = libmodel.const_value(ast.literal_eval(st.value))
@@ -748,6 +751,10 @@ class Interp:
 
     def e_IfExp(s, n, st):
         t = s.truth(s.eval(n.test, st), n.test)
+        if isinstance(t, tuple) and t[0] != "tree":
+            # a condition already assumed on this path is not re-opened
+            for c0, p0 in st.assumed:
+                if c0 is t[0]: t = (p0 == t[1]); break
         if t is True: return s.eval(n.body, st)
         if t is False: return s.eval(n.orelse, st)
         a = s.eval(n.body, st); b = s.eval(n.orelse, st)
@@ -828,6 +835,16 @@ class Interp:
 
 # ---------------------------------------------------------------------------- helpers
 _GEN_CACHE = {}
+
+
+def _memo_wrapped(node):
+    """f for  lru_cache(...)(f) / lru_cache(f) / cache(f)  (functools), else None."""
+    if not isinstance(node, ast.Call) or len(node.args) != 1 or not isinstance(node.args[0], ast.Name) or node.keywords: return None
+    f = node.func
+    if isinstance(f, ast.Call): f = f.func
+    nm = ast.unparse(f)
+    if nm.split(".")[-1] in ("lru_cache", "cache"): return node.args[0].id
+    return None
 
 
 def _detach_closures(v):
